@@ -1,0 +1,22 @@
+//go:build verif
+// +build verif
+
+package cpu
+
+import (
+	"os"
+	"strconv"
+)
+
+// Verification hook (build tag verif only): the acceleration level normally
+// derived from CPUID can be overridden through FASTGO_VERIF_ARCHLEVEL so that
+// every dispatch path can be exercised on one host.  This init runs after the
+// package-level initialiser of ArchLevel and before any importing package is
+// initialised.
+func init() {
+	if s := os.Getenv("FASTGO_VERIF_ARCHLEVEL"); s != "" {
+		if v, err := strconv.Atoi(s); err == nil && v >= 0 && v <= 4 {
+			ArchLevel = v
+		}
+	}
+}
